@@ -21,10 +21,11 @@ Fixpoint sclo (c : clo) : clo :=
 Section ValInd.
   Variable P : val -> Prop.
   Hypotheses (H1 : P VNil) (H2 : forall b, P (VBool b)) (H3 : forall x, P (VStr x))
-             (H4 : forall l, Forall P l -> P (VList l)) (H5 : forall b, P (VHole b)) (H6 : forall h, P (VHStr h)).
+             (H4 : forall l, Forall P l -> P (VList l)) (H5 : forall b, P (VHole b)) (H6 : forall h, P (VHStr h))
+             (H7 : forall n, P (VNum n)).
   Fixpoint val_ind' (v : val) : P v :=
     match v with
-    | VNil => H1 | VBool b => H2 b | VStr x => H3 x | VHole b => H5 b | VHStr h => H6 h
+    | VNil => H1 | VBool b => H2 b | VStr x => H3 x | VHole b => H5 b | VHStr h => H6 h | VNum n => H7 n
     | VList l => H4 l ((fix go (l : list val) : Forall P l :=
                           match l with [] => Forall_nil _ | x :: t => Forall_cons _ (val_ind' x) (go t) end) l)
     end.
@@ -47,7 +48,7 @@ Qed.
 (* deciding truthiness without looking into a hole gives the answer the concrete value gives *)
 Lemma truthy_subst v b : cons_v v = true -> truthy v = Some b -> truthy (subst s v) = Some b.
 Proof.
-  destruct v as [| b' | x | l | b' | h]; cbn [truthy subst cons_v]; auto.
+  destruct v as [| b' | x | l | b' | h | n]; cbn [truthy subst cons_v]; auto.
   - intros H [= <-]. apply Bool.eqb_prop in H. now subst.
   - intro Hc. destruct (forallb is_lit h) eqn:El.
     + intros [= <-]. now rewrite (fill_lit h s El).
@@ -67,7 +68,7 @@ Lemma fill_cons_lit t b h : fill t (@inl bytes bool b :: h) = b ++ fill t h.
 Proof. reflexivity. Qed.
 Lemma sprint_subst v : fill [] (sprint (subst s v)) = fill s (sprint v).
 Proof.
-  induction v as [| b | x | l IH | b | h] using val_ind'; try reflexivity.
+  induction v as [| b | x | l IH | b | h | n] using val_ind'; try reflexivity.
   - destruct b; reflexivity.
   - cbn [subst sprint]. rewrite !fill_app. f_equal. f_equal.
     assert (G : fill [] (flat_map (fun x => inl sp :: sprint x) (map (subst s) l))
@@ -123,7 +124,7 @@ Lemma forallb_tl {A} (f : A -> bool) l : forallb f l = true -> forallb f (tl l) 
 Proof. destruct l; cbn; [auto|]. intro H. apply andb_true_iff in H. tauto. Qed.
 Lemma cons_sprint v : cons_v v = true -> cons_h (sprint v) = true.
 Proof.
-  induction v as [| b | x | l IH | b | h] using val_ind'; cbn [sprint cons_v]; auto.
+  induction v as [| b | x | l IH | b | h | n] using val_ind'; cbn [sprint cons_v]; auto.
   - destruct b; reflexivity.
   - intro H. unfold cons_h. rewrite !forallb_app. cbn [forallb cons_c1 andb]. rewrite andb_true_r.
     apply forallb_tl.
@@ -140,7 +141,7 @@ Proof.
 Qed.
 Lemma lit_sprint_subst v : forallb is_lit (sprint (subst s v)) = true.
 Proof.
-  induction v as [| b | x | l IH | b | h] using val_ind'; try reflexivity.
+  induction v as [| b | x | l IH | b | h | n] using val_ind'; try reflexivity.
   - destruct b; reflexivity.
   - cbn [subst sprint]. rewrite !forallb_app. cbn [forallb is_lit andb]. rewrite andb_true_r.
     apply forallb_tl.
@@ -228,12 +229,56 @@ Proof.
     destruct b; [eapply evals_ok; eauto|auto].
 Qed.
 
+Lemma loop2_ok ev : ev_ok ev -> forall i v body items k c r d, cons_c c = true -> cons_e r = true -> forallb cons_v items = true ->
+  loop2_with ev i v k c r body items = Ok d ->
+  exists d', loop2_with ev i v k (sclo c) (senv s r) body (map (subst s) items) = Ok d' /\ rel d d'.
+Proof.
+  intros Hev i v body items. induction items as [|it rest IH]; intros k c r d Hc Hr Hi H; cbn in *.
+  - injection H as <-. exists []. split; reflexivity.
+  - apply andb_true_iff in Hi. destruct Hi as [Hit Hrest].
+    destruct (evals_with ev c ((v, it) :: (i, VNum k) :: r) body) as [a| | |] eqn:Ea; try discriminate. cbn in H.
+    destruct (loop2_with ev i v (S k) c r body rest) as [b| | |] eqn:Eb; try discriminate. cbn in H. injection H as <-.
+    destruct (evals_ok ev Hev body c ((v, it) :: (i, VNum k) :: r) a Hc) as [a' [Ha' Ra]]; [cbn; now rewrite Hit|assumption|].
+    destruct (IH (S k) c r b Hc Hr Hrest Eb) as [b' [Hb' Rb]].
+    change (senv s ((v, it) :: (i, VNum k) :: r)) with ((v, subst s it) :: (i, VNum k) :: senv s r) in Ha'.
+    cbn [loop2_with map]. rewrite Ha'. cbn [bind]. rewrite Hb'. cbn [bind]. eexists. split; [reflexivity|]. now apply rel_app.
+Qed.
+
+(* front-matter is written in the component file: it holds no data value, hence no hole *)
+Fixpoint plain_v (v : val) : bool :=
+  match v with VHole _ | VHStr _ => false | VList l => forallb plain_v l | _ => true end.
+Definition plain_e (r : env) : bool := forallb (fun kv => plain_v (snd kv)) r.
+Definition plain_W (W : list (env * list tnode)) : bool := forallb (fun c => plain_e (fst c)) W.
+Lemma plain_subst v : plain_v v = true -> subst s v = v.
+Proof.
+  induction v as [| b | x | l IH | b | h | n] using val_ind'; cbn; try reflexivity; try discriminate.
+  intro H. f_equal. induction IH as [|v l Hv _ IHl]; cbn in *; [reflexivity|].
+  apply andb_true_iff in H. destruct H as [H1 H2]. now rewrite (Hv H1), (IHl H2).
+Qed.
+Lemma plain_cons v : plain_v v = true -> cons_v v = true.
+Proof.
+  induction v as [| b | x | l IH | b | h | n] using val_ind'; cbn; try reflexivity; try discriminate.
+  intro H. induction IH as [|v l Hv _ IHl]; cbn in *; [reflexivity|].
+  apply andb_true_iff in H. destruct H as [H1 H2]. now rewrite (Hv H1), (IHl H2).
+Qed.
+Lemma plain_e_senv r : plain_e r = true -> senv s r = r.
+Proof.
+  unfold senv. induction r as [|[k v] r IH]; cbn; [reflexivity|]. intro H. apply andb_true_iff in H. destruct H as [H1 H2].
+  now rewrite (plain_subst v H1), (IH H2).
+Qed.
+Lemma plain_e_cons r : plain_e r = true -> cons_e r = true.
+Proof.
+  unfold cons_e. induction r as [|[k v] r IH]; cbn; [reflexivity|]. intro H. apply andb_true_iff in H. destruct H as [H1 H2].
+  now rewrite (plain_cons v H1), (IH H2).
+Qed.
+
 Section W.
-Variable W : list (list tnode).
+Variable W : list (env * list tnode).
+Hypothesis HW : plain_W W = true.
 Theorem eval_hole_param : forall fuel, ev_ok (eval W fuel).
 Proof.
   induction fuel as [|f IH]; intros c r t d Hc Hr H; [discriminate|].
-  destruct t as [v | tag a kids | tag x | tag x kids | x th el | br el | x lit th | v coll body | fi p content | fb]; cbn [eval] in *.
+  destruct t as [v | tag a kids | tag x | tag x kids | x th el | br el | x lit th | v coll body | i v coll body | fi p content | fb]; cbn [eval] in *.
   - (* text *) injection H as <-. eexists. split; [reflexivity|]. unfold rel. cbn. now rewrite interp_subst.
   - (* element *)
     destruct (eval_attrs r a) as [at'| | |] eqn:Ea; try discriminate. cbn [bind] in H.
@@ -263,22 +308,32 @@ Proof.
   - (* chain *) eapply chain_ok; eauto.
   - (* comparison with a literal *)
     rewrite lookup_senv. destruct (lookup r x) as [w|] eqn:E; cbn [option_map].
-    + destruct w as [| b | t | l | b | h]; cbn [subst]; try (injection H as <-; exists []; split; reflexivity); try discriminate.
+    + destruct w as [| b | t | l | b | h | n]; cbn [subst]; try (injection H as <-; exists []; split; reflexivity); try discriminate.
       * destruct (bytes_eqb t lit); [eapply evals_ok; eauto|]. injection H as <-. exists []. split; reflexivity.
       * destruct (forallb is_lit h) eqn:El; [|discriminate]. rewrite (fill_lit h s El).
         destruct (bytes_eqb (fill [] h) lit); [eapply evals_ok; eauto|]. injection H as <-. exists []. split; reflexivity.
     + injection H as <-. exists []. split; reflexivity.
   - (* v-for *)
     rewrite lookup_senv. destruct (lookup r coll) as [w|] eqn:E; cbn [option_map].
-    + destruct w as [| b | t | l | b | h]; cbn [subst]; try (injection H as <-; exists []; split; reflexivity); try discriminate.
+    + destruct w as [| b | t | l | b | h | n]; cbn [subst]; try (injection H as <-; exists []; split; reflexivity); try discriminate.
       * eapply loop_ok; eauto. apply (lookup_cons _ _ _ Hr E).
       * destruct (forallb is_lit h); [|discriminate]. injection H as <-. exists []. split; reflexivity.
     + injection H as <-. exists []. split; reflexivity.
+  - (* v-for with index *)
+    rewrite lookup_senv. destruct (lookup r coll) as [w|] eqn:E; cbn [option_map].
+    + destruct w as [| b | t | l | b | h | n]; cbn [subst]; try (injection H as <-; exists []; split; reflexivity); try discriminate.
+      * eapply loop2_ok; eauto. apply (lookup_cons _ _ _ Hr E).
+      * destruct (forallb is_lit h); [|discriminate]. injection H as <-. exists []. split; reflexivity.
+    + injection H as <-. exists []. split; reflexivity.
   - (* include *)
-    destruct (nth_error W fi) as [body|]; [|discriminate].
+    destruct (nth_error W fi) as [[fm body]|] eqn:En; [|discriminate].
+    assert (Hfm : plain_e fm = true).
+    { apply nth_error_In in En. unfold plain_W in HW. rewrite forallb_forall in HW. exact (HW _ En). }
     destruct (eval_props r p) as [pe| | |] eqn:Ep; try discriminate. cbn [bind] in H.
-    destruct (props_ok _ _ _ Hr Ep) as [Cpe Hpe]. rewrite Hpe. cbn [bind]. rewrite <- senv_app.
-    apply (evals_ok _ IH body (CSome r content c) (pe ++ r) d); [cbn; now rewrite Hr, Hc|now rewrite cons_e_app, Cpe, Hr|exact H].
+    destruct (props_ok _ _ _ Hr Ep) as [Cpe Hpe]. rewrite Hpe. cbn [bind].
+    replace (fm ++ senv s pe ++ senv s r) with (senv s (fm ++ pe ++ r)) by (now rewrite !senv_app, (plain_e_senv fm Hfm)).
+    apply (evals_ok _ IH body (CSome r content c) (fm ++ pe ++ r) d);
+      [cbn; now rewrite Hr, Hc|now rewrite !cons_e_app, (plain_e_cons fm Hfm), Cpe, Hr|exact H].
   - (* slot *)
     destruct c as [|rc [|x0 content] outer]; cbn [sclo].
     + apply (evals_ok _ IH fb CNone r d); auto.
@@ -292,15 +347,15 @@ End Param.
 
 (* non-vacuity: a value forwarded through a loop into text, an attribute, v-text, a component's prop and the
    slot content handed to it is inert; the same value used in a comparison is not (the hole run reports it) *)
-Definition w_demo : list (list tnode) :=
-  [[TElem [x75] [ABound [x74] 7] [TText [Var 8]; TSlot [TText [Lit [x66]]]]]].
+Definition w_demo : list (env * list tnode) :=
+  [([(9, VNum 3)], [TElem [x75] [ABound [x74] 7] [TText [Var 8; Var 9]; TSlot [TText [Lit [x66]]]]])].
 Definition t_ok : tnode :=
-  TFor 1 0 [TElem [x61] [ABound [x74] 1; AStatic [x63] [Lit [x78]; Var 1]] [TText [Lit [x3a]; Var 1]; TVText [x70] 1;
+  TFor2 2 1 0 [TElem [x61] [ABound [x74] 1; AStatic [x63] [Lit [x78]; Var 1]] [TText [Lit [x3a]; Var 1]; TVText [x70] 1;
             TInclude 0 [PBound 7 1; PStatic 8 [Lit [x4c]; Var 1]] [TShow [x69] 1 [TText [Var 1]]]]].
 Example inert_case : exists d, eval w_demo 7 CNone [(0, VList [VHole true; VStr [x7a]])] t_ok = Ok d.
 Proof. vm_compute. eexists. reflexivity. Qed.
 Example inspected_case : eval w_demo 5 CNone [(1, VHole true)] (TEq 1 [x61] [TText [Lit [x61]]]) = ErrInspect.
 Proof. reflexivity. Qed.
 (* a string assembled from a literal and a hole cannot have its truthiness decided without looking *)
-Example inspected_mixed : eval [[TIf 8 [] []]] 5 CNone [(1, VHole true)] (TInclude 0 [PStatic 8 [Lit [x66]; Var 1]] []) = ErrInspect.
+Example inspected_mixed : eval [([], [TIf 8 [] []])] 5 CNone [(1, VHole true)] (TInclude 0 [PStatic 8 [Lit [x66]; Var 1]] []) = ErrInspect.
 Proof. reflexivity. Qed.
